@@ -28,7 +28,7 @@ func TestCheck(t *testing.T) {
 			"(E) deterministic carry-over cases for both strategies and both directions: hold what the limiter in effect admits, switch local<->remote (readiness flip / first granted quota q with local+q > global), admit until refused, count what is in flight at once. " +
 			"(F) bounded progress: healthy -> outage (error answers | acquire calls hanging beyond the 500 ms timeout | not ready | ClientFor failing) -> healthy, callers trying throughout; > 0 admissions demanded after a generous grace during the outage and from 5 s to >= 8 s after it. " +
 			"(A) and (B) also contain reconfiguration steps (UpstreamLimiter.Sync with changed local/global limits while the server is ok / failing / not ready); the oracle follows the current limits once they were propagated. " +
-			"(D) the real clientsets.ClientSets (1 s heartbeat, 5 s hysteresis) against a stub limiter HTTP server: outage and recovery, probes judged by the readiness reported before and after each probe. " +
+			"(D) the real clientsets.ClientSets (1 s heartbeat, 5 s hysteresis) against a stub limiter service with TWO shards and two leaders (HTTP servers), one upstream cluster per shard, each with its own real UpstreamLimiter: the leader of one shard goes down while the other stays healthy (both directions), then recovers; probes judged by the readiness reported for that upstream before and after each probe. " +
 			"Non-trivial = the history contains at least one non-honest reply or failure; distinct = hash of (schema, step list / scenario).")
 		r.Assume("the global limit of a token-bucket schema is the pair (global qps, global burst): admissions in any window of length T are at most burst + qps*T")
 		r.Assume("replies keep the schema's type and strategy (ill-typed and empty-detail replies are outside the quantifier; empty-detail replies are run and only counted)")
